@@ -83,4 +83,11 @@ def run(ck):
     ck.require_fact("B4.finished-only-when-parsed", fl, fin, ck.m_result_of(hc, "Http::One::TeChunkedParser::parse"), True, "finishDechunkingRequest(true)",
                     why="(an incomplete chunked upload would be forwarded as a complete body)")
     ck.require_passed("B4.limit-before-finish", fl, fin, "limit", "finishDechunkingRequest(true)")
+    ck.rule("B5 HttpStateData::statusIfComplete: COMPLETE_PERSISTENT_MSG (the server connection goes back to the idle pool) only with flags.request_sent established "
+            "true: a connection on which the request body is only partly written must never carry another request (the next request would be written into the "
+            "unfinished body); HttpStateData::sendComplete/wroteLast set request_sent only when the whole request was handed to the socket")
+    sic = facts.fn("HttpStateData::statusIfComplete")
+    conn = facts.enum_with("COMPLETE_PERSISTENT_MSG")
+    ck.require_fact("B5.persistent-only-after-whole-request", ck.flow(sic), ev_return(E.m_const(conn["COMPLETE_PERSISTENT_MSG"])), E.m_is_mem("request_sent"), True,
+                    "return COMPLETE_PERSISTENT_MSG", why="(an early complete reply would return a server connection to the pool while the request body is still being relayed)")
     ck.assume("byte equality across packets and 100-continue timing are not decided")
